@@ -274,8 +274,11 @@ def _argument_fw(prog, body, op, depth=0):
     return out
 
 
-def rule_literal_provenance(ctx):
+def rule_literal_provenance(ctx, kind=None):
+    from .accept import query_scope
+
     prog = ctx.prog
+    scope = query_scope(prog, kind)
     r = ctx.rule(
         "literal-provenance",
         "in a static solver, an argument handed to the encoder's id-based `arg_to_lit`, and the framework handed to `assignment_to_extension`, "
@@ -284,6 +287,7 @@ def rule_literal_provenance(ctx):
     )
     n = n_res = 0
     fns = [b for b in prog.lib_bodies() if b.kind != "closure" and (b.path.startswith("solvers::") or "<solvers::" in b.path.split(" as ")[0])]
+    fns = [b for b in fns if scope is None or b.id in scope]
     for fn in sorted(fns, key=lambda b: b.id):
         bodies = prog.with_closures(fn)
         enc = set()
@@ -293,6 +297,8 @@ def rule_literal_provenance(ctx):
                     enc |= _fw_identity(prog, b, s.node["args"][1])
         for b in bodies:
             k = 0
+            if scope is not None and b.id not in scope:
+                continue
             for s in b.calls():
                 c = callee_of(s)
                 if callee_matches(c, A2L):
@@ -308,7 +314,49 @@ def rule_literal_provenance(ctx):
                 k += 1
                 unknown = {x for x in got if x.startswith("?")}
                 if not enc:
-                    r.ok(anchor, "no encoding call in this function (helper): argument from %s" % sorted(got), s.loc())
+                    # a helper: when the argument / framework is a parameter of the helper, judge each call of the helper
+                    # in a function that does encode
+                    params = set()
+                    for x in got:
+                        m = re.match(r"^(.*):param#(\d+)$", x)
+                        if m and m.group(1) == fn.id:
+                            params.add(int(m.group(2)))
+                    judged = 0
+                    if params and len(params) == len(got):
+                        for cs in prog.callers_of(fn):
+                            cfn = prog.enclosing_fn(cs.body)
+                            cenc = set()
+                            for cb in prog.with_closures(cfn):
+                                for es in cb.calls():
+                                    if callee_matches(callee_of(es), ENCODE):
+                                        cenc |= _fw_identity(prog, cb, es.node["args"][1])
+                            if not cenc or any(x.startswith("?") for x in cenc):
+                                continue
+                            for k in sorted(params):
+                                if k - 1 >= len(cs.node["args"]):
+                                    continue
+                                a = cs.node["args"][k - 1]
+                                pty = fn.local_ty(k)
+                                if "AAFramework<" in pty:
+                                    cgot = _fw_identity(prog, cs.body, a)
+                                elif re.search(r"^&(mut )?\[|Vec<", pty):
+                                    cgot = _elements_fw(prog, cs.body, a)
+                                else:
+                                    cgot = _argument_fw(prog, cs.body, a)
+                                if any(x.startswith("?") for x in cgot):
+                                    continue
+                                judged += 1
+                                r.check(
+                                    cgot <= cenc,
+                                    "%s|%s#%d<-%s" % (b.id, what, k2 if False else 0, strip_generics(cfn.id)),
+                                    "foreign-framework",
+                                    "helper called with %s = the framework encoded by the caller" % sorted(cgot),
+                                    "%s (in helper %s) is applied to %s handed over by %s, which encoded %s" % (what, fn.path, sorted(cgot - cenc), cfn.path, sorted(cenc)),
+                                    cs.loc(),
+                                )
+                    if judged:
+                        n_res += 1
+                    r.ok(anchor, "no encoding call in this function (helper): argument from %s; %d call(s) of the helper judged in their callers" % (sorted(got), judged), s.loc())
                     continue
                 if unknown or any(x.startswith("?") for x in enc):
                     r.ok(anchor, "provenance not resolved (%s): not decided here" % sorted(unknown or enc), s.loc())
@@ -322,8 +370,8 @@ def rule_literal_provenance(ctx):
                     "%s is applied to %s but the encoder encoded %s in this function: literals are numbered by the ids of the encoded framework" % (what, sorted(got - enc), sorted(enc)),
                     s.loc(),
                 )
-    r.floor(n, 12, "arg_to_lit / assignment_to_extension sites in the static solvers")
-    r.floor(n_res, 9, "sites whose provenance is resolved")
+    r.floor(n, 12 if kind is None else 4, "arg_to_lit / assignment_to_extension sites in the static solvers")
+    r.floor(n_res, 9 if kind is None else 3, "sites whose provenance is resolved")
 
 
 # ------------------------------------------------------------------------------------------
@@ -364,8 +412,11 @@ def _solver_creations(prog, body, op, depth=0):
     return out
 
 
-def rule_fresh_solver_per_encoding(ctx):
+def rule_fresh_solver_per_encoding(ctx, kind=None):
+    from .accept import query_scope
+
     prog = ctx.prog
+    scope = query_scope(prog, kind)
     r = ctx.rule(
         "fresh-solver-per-encoding",
         "in the static solvers, the SAT solver handed to `encode_constraints*` is created (by the factory) inside every loop that contains the "
@@ -374,6 +425,7 @@ def rule_fresh_solver_per_encoding(ctx):
     )
     n = n_local = 0
     fns = [b for b in prog.lib_bodies() if b.kind != "closure" and (b.path.startswith("solvers::") or "<solvers::" in b.path.split(" as ")[0])]
+    fns = [b for b in fns if scope is None or b.id in scope]
     for fn in sorted(fns, key=lambda b: b.id):
         by_creation = {}
         for b in prog.with_closures(fn):
@@ -406,8 +458,8 @@ def rule_fresh_solver_per_encoding(ctx):
         for (cid, cbb), sites in sorted(by_creation.items()):
             if len({(x.body.id, x.bb) for x in sites}) > 1:
                 r.violation("%s|creation@bb%d" % (cid, cbb), "shared-solver", "%d encoding calls (%s) fill the solver created in %s bb%d" % (len(sites), [x.loc() for x in sites], cid, cbb), sites[0].loc())
-    r.floor(n, 9, "encode_constraints* call sites in the static solvers")
-    r.floor(n_local, 7, "encoding calls whose solver is created in the same function")
+    r.floor(n, 9 if kind is None else 3, "encode_constraints* call sites in the static solvers")
+    r.floor(n_local, 7 if kind is None else 2, "encoding calls whose solver is created in the same function")
 
 
 def _closure_called_in_loop(prog, clo):
